@@ -210,8 +210,10 @@ def check_case(prop, case, il, ml, ctx):
         _nontrivial(ctx, case, True)
         _kind(ctx, "US")
     elif op == "U":
-        if il != ml:
+        if I.get("u") != M.get("u") or "u" not in I:
             probs.append(f"U: implementation {il!r} independent SHA-1 computation {ml!r}")
+        if I.get("inplace", "1") != "1":
+            probs.append("U: the uuid of a buffer whose content was replaced in place (same address, same length) is not the uuid of its current bytes")
         _nontrivial(ctx, case, True)
         _kind(ctx, "U")
     elif op == "A":
@@ -234,6 +236,8 @@ def check_case(prop, case, il, ml, ctx):
             implied = al(al(al(24 + 28 * nc) + 36 * nm) + 36 * np_) + sb
             if implied != len(wb):
                 probs.append(f"length {len(wb)} differs from the length {implied} implied by the header")
+        if I.get("al", "1") != "1":
+            probs.append("the cache bytes depend on the address (alignment modulo 8) of the mapping bytes")
         if mode == "spec" and I.get("test") != "ok":
             probs.append(f"self test: {I.get('test')}")
         _nontrivial(ctx, case, len(I.get("w", "")) > 60)
